@@ -353,6 +353,18 @@ pub fn t_run(c: &TCase) -> Outcome {
     Ok(obs)
 }
 
+/// libFuzzer entry: bring a decoded case into the domain of `strategy`
+pub fn fuzz_domain(c: &mut Case) -> bool {
+    c.width %= 2;
+    c.ops.truncate(120);
+    for o in c.ops.iter_mut() {
+        if let Op::AddEdge(k, ..) = o {
+            *k %= 4;
+        }
+    }
+    true
+}
+
 pub fn property() -> Property {
     Property {
         id: "C14",
@@ -360,7 +372,7 @@ pub fn property() -> Property {
         assumptions: &["insertions are only attempted between live nodes (try_add_edge documents a panic otherwise); histories stop when the inner graph's index space is exhausted"],
         both_profiles: false,
         subs: vec![
-            sub("acyclic/history", 600_000, 4_000_000, strategy, run),
+            sub_fuzz("acyclic/history", 600_000, 4_000_000, strategy, run, fuzz_domain),
             sub("acyclic/try_from", 1_500_000, 30_000_000, t_strategy, t_run),
         ],
     }
